@@ -12,7 +12,7 @@
     transaction root (DeriveSha with a trie hasher, C07) is [TxRoot].  Go's nil and empty slices are
     identified (every comparison in the modelled code is [bytes.Equal] / [len]). *)
 From Coq Require Import List ZArith NArith Bool Lia.
-From Kardia Require Import Base.Int64 Base.ListX.
+From Kardia Require Import Base.Int64 Base.ListX Generated.C13Facts.
 Import ListNotations.
 Local Open Scope N_scope.
 
@@ -225,6 +225,26 @@ Section Merkle.
     fold_left (fun s p => fst (add_part s p)) l ps.
 
 End Merkle.
+
+(* ====================================================================== parts on the wire *)
+
+(** What [PartFromProto] (wire messages, WAL, block store) checks after unmarshalling:
+    [ProofFromProto] -> [SimpleProof.ValidateBasic] (leaf hash and every aunt are [merkle.Size] = 32
+    bytes), then [Part.ValidateBasic] (at most BlockPartSizeBytes bytes; the constant is regenerated
+    from the source). *)
+Inductive wire_err := WOk | WProof | WTooBig.
+
+Definition proof_validate_basic (p : proof) : bool :=
+  (Nat.eqb (length (p_leaf p)) 32 && forallb (fun a => Nat.eqb (length a) 32) (p_aunts p))%bool.
+
+Definition part_validate_basic (max : N) (bz : bytes) : bool := N.of_nat (length bz) <=? max.
+
+Definition part_from_proto (max : N) (index : N) (bz : bytes) (pr : proof) : wire_err :=
+  if negb (proof_validate_basic pr) then WProof
+  else if negb (part_validate_basic max bz) then WTooBig
+  else WOk.
+
+Definition part_from_proto_real := part_from_proto block_part_size_bytes.
 
 (* ====================================================================== protobuf subset *)
 
